@@ -25,6 +25,16 @@ pub enum Fault {
     OutOfSync,
     Deadlock,
     MessageLoss,
+    // The faulting model owns sub-models (top-level parent / middle of a chain).
+    PanicParent,
+    PanicMiddle,
+    PanicInitParent,
+    PanicInitMiddle,
+    NoRecipientParent,
+    NoRecipientMiddle,
+    DeadlockSubmodel,
+    DeadlockParent,
+    DeadlockMiddle,
     // Non-fatal.
     InvalidDeadline,
     BadQuery,
@@ -44,6 +54,30 @@ pub const FATAL: &[Fault] = &[
     Fault::OutOfSync,
     Fault::Deadlock,
     Fault::MessageLoss,
+    Fault::PanicParent,
+    Fault::PanicMiddle,
+    Fault::PanicInitParent,
+    Fault::PanicInitMiddle,
+    Fault::NoRecipientParent,
+    Fault::NoRecipientMiddle,
+    Fault::DeadlockSubmodel,
+    Fault::DeadlockParent,
+    Fault::DeadlockMiddle,
+];
+
+/// Faults whose report must name a model inside a hierarchy (used by C16 too).
+pub const HIERARCHY: &[Fault] = &[
+    Fault::PanicSubmodel,
+    Fault::NoRecipientSubmodel,
+    Fault::PanicParent,
+    Fault::PanicMiddle,
+    Fault::PanicInitParent,
+    Fault::PanicInitMiddle,
+    Fault::NoRecipientParent,
+    Fault::NoRecipientMiddle,
+    Fault::DeadlockSubmodel,
+    Fault::DeadlockParent,
+    Fault::DeadlockMiddle,
 ];
 pub const NONFATAL: &[Fault] = &[Fault::InvalidDeadline, Fault::BadQuery, Fault::SchedulingErrors];
 
@@ -79,7 +113,21 @@ pub struct Scenario {
 pub fn scenario(fault: Fault, trig: Trigger, queue_nonempty: bool, after: &[usize], seed: u64) -> Scenario {
     let kinds = KINDS as usize;
     let empty = || (0..kinds).map(|_| Vec::new()).collect::<Vec<_>>();
-    let sub = matches!(fault, Fault::PanicSubmodel | Fault::NoRecipientSubmodel);
+    // Position of the fault node in the hierarchy: `sub` = it is a sub-model of
+    // the healthy root, `owner` = it owns sub-models itself ("c" and "c.g").
+    let middle = matches!(fault, Fault::PanicMiddle | Fault::PanicInitMiddle | Fault::NoRecipientMiddle | Fault::DeadlockMiddle);
+    let owner = middle || matches!(fault, Fault::PanicParent | Fault::PanicInitParent | Fault::NoRecipientParent | Fault::DeadlockParent);
+    let sub = middle || matches!(fault, Fault::PanicSubmodel | Fault::NoRecipientSubmodel | Fault::DeadlockSubmodel);
+    // The remaining logic only depends on the kind of fault.
+    let fault_kind = match fault {
+        Fault::PanicParent | Fault::PanicMiddle => Fault::PanicString,
+        Fault::PanicInitParent | Fault::PanicInitMiddle => Fault::PanicInit,
+        Fault::NoRecipientParent | Fault::NoRecipientMiddle => Fault::NoRecipientModel,
+        Fault::DeadlockSubmodel | Fault::DeadlockParent | Fault::DeadlockMiddle => Fault::Deadlock,
+        f => f,
+    };
+    let orig_fault = fault;
+    let fault = fault_kind;
     let mut a = NodeSpec { name: "a".into(), cap: 4, added: true, key_slots: 1, react: empty(), qreact: empty(), ..Default::default() };
     let mut f = NodeSpec { name: "f".into(), cap: 4, added: true, key_slots: 1, react: empty(), qreact: empty(), parent: if sub { Some(0) } else { None }, ..Default::default() };
     let gone = NodeSpec { name: "gone".into(), cap: 4, added: false, dropped: true, key_slots: 1, react: empty(), qreact: empty(), ..Default::default() };
@@ -147,6 +195,7 @@ pub fn scenario(fault: Fault, trig: Trigger, queue_nonempty: bool, after: &[usiz
         Fault::SchedulingErrors => {
             fatal = false;
         }
+        _ => unreachable!("hierarchy variants were mapped to their fault kind"),
     }
     if let Some(act) = fault_action {
         f.react[3] = vec![act.clone()];
@@ -154,6 +203,13 @@ pub fn scenario(fault: Fault, trig: Trigger, queue_nonempty: bool, after: &[usiz
         f.qreact[3] = vec![act];
     }
     spec.nodes = vec![a, f, gone, orphan];
+    if owner {
+        // Healthy sub-models of the fault node, two levels deep, plus a healthy
+        // top-level model registered before everything else is built.
+        spec.nodes.push(NodeSpec { name: "c".into(), cap: 4, added: true, key_slots: 1, react: empty(), qreact: empty(), parent: Some(1), ..Default::default() });
+        spec.nodes.push(NodeSpec { name: "g".into(), cap: 4, added: true, key_slots: 1, react: empty(), qreact: empty(), parent: Some(4), ..Default::default() });
+        spec.nodes.push(NodeSpec { name: "c2".into(), cap: 4, added: true, key_slots: 1, react: empty(), qreact: empty(), parent: Some(1), ..Default::default() });
+    }
     // Source 0 -> a (healthy); source 1 -> f kind 3 trigger; source 2 -> gone.
     spec.sources = vec![vec![Conn { target: Target::Node(0), map: MapKind::Plain }], vec![Conn { target: Target::Node(1), map: MapKind::Plain }], vec![Conn { target: Target::Node(2), map: MapKind::Plain }]];
     // Prefix: some healthy activity.
@@ -232,7 +288,7 @@ pub fn scenario(fault: Fault, trig: Trigger, queue_nonempty: bool, after: &[usiz
         spec.cmds.push(Cmd::Event { node: 0, kind: 0 });
         spec.cmds.push(Cmd::Step);
     }
-    let desc = format!("fault={:?} trigger={:?} queue_nonempty={} after={:?}", fault, trig, queue_nonempty, after.iter().map(|k| format!("{:?}", after_call(*k))).collect::<Vec<_>>());
+    let desc = format!("fault={:?} trigger={:?} queue_nonempty={} after={:?}", orig_fault, trig, queue_nonempty, after.iter().map(|k| format!("{:?}", after_call(*k))).collect::<Vec<_>>());
     Scenario { spec, fault_cmd, expected, fatal, desc }
 }
 
@@ -339,6 +395,47 @@ fn suffixes() -> Vec<Vec<usize>> {
     v
 }
 
+/// C16, part `reports`: names in error reports for every position of the
+/// failing model in a hierarchy (sub-model, owner of sub-models, middle of a
+/// chain) x fault kind (panic in a handler / in init, NoRecipient, Deadlock) x
+/// trigger x executor. Only the attribution is judged here.
+pub fn run_hierarchy_reports(rep: &mut Report, opts: &Opts) {
+    let trigs = [Trigger::ProcessEvent, Trigger::Step, Trigger::StepUntil, Trigger::ProcessSource];
+    let mut case = 0u64;
+    for &fault in HIERARCHY {
+        for &trig in &trigs {
+            if matches!(fault, Fault::PanicInitParent | Fault::PanicInitMiddle) && trig != Trigger::ProcessEvent {
+                continue;
+            }
+            for q in [false, true] {
+                for threads in [1usize, 2, 4] {
+                    case += 1;
+                    if !opts.mine(case) || (cfg!(miri) && case % 7 != 0) {
+                        continue;
+                    }
+                    let sc = scenario(fault, trig, q, &[0], h2(opts.seed, case));
+                    let spec = Arc::new(sc.spec.clone());
+                    let ex = if threads == 1 { Exec::st() } else { Exec::mt(threads) };
+                    let replay = opts.replay_args("reports", case);
+                    let ro = RunOpts { ctx: ("C16/hang/call-never-returns".into(), replay.clone()), read_sinks: false, keep_events: true };
+                    let tr = bench::run(&spec, &ex, &ro);
+                    rep.evaluations += 1;
+                    rep.count("error_reports_with_hierarchical_names_checked", 1);
+                    rep.distinct.insert(h2(case, 0x16));
+                    let fidx = sc.fault_cmd.map_or(0, |c| c + 1);
+                    let mut calls = vec![&tr.init];
+                    calls.extend(tr.outcomes.iter());
+                    match calls.get(fidx) {
+                        Some(fc) if fc.res == sc.expected => {}
+                        Some(fc) => rep.violation("C16/wrong-model-name-in-error-report", format!("[reports {} {}] the failing call returned {:?}, expected {:?} (dotted path of the failing model)", ex.label, sc.desc, fc.res, sc.expected), replay),
+                        None => rep.violation("C16/wrong-model-name-in-error-report", format!("[reports {} {}] the run stopped before the failing call: {:?}", ex.label, sc.desc, calls.iter().map(|c| c.res.clone()).collect::<Vec<_>>()), replay),
+                    }
+                }
+            }
+        }
+    }
+}
+
 pub fn run(opts: &Opts) -> Report {
     let mut rep = Report::new("C11");
     let sufs = suffixes();
@@ -349,7 +446,7 @@ pub fn run(opts: &Opts) -> Report {
         for &trig in &trigs {
             // Triggers that do not apply collapse to one representative.
             let applicable = match fault {
-                Fault::PanicInit | Fault::InvalidDeadline | Fault::BadQuery | Fault::SchedulingErrors => trig == Trigger::ProcessEvent,
+                Fault::PanicInit | Fault::PanicInitParent | Fault::PanicInitMiddle | Fault::InvalidDeadline | Fault::BadQuery | Fault::SchedulingErrors => trig == Trigger::ProcessEvent,
                 Fault::OutOfSync => matches!(trig, Trigger::Step | Trigger::StepUntil),
                 Fault::NoRecipientSource => trig != Trigger::ProcessEvent,
                 _ => true,
@@ -359,7 +456,10 @@ pub fn run(opts: &Opts) -> Report {
             }
             for q in [false, true] {
                 let fatal = FATAL.contains(&fault);
-                let my_sufs: Vec<&Vec<usize>> = if !fatal {
+                let hier_variant = HIERARCHY.contains(&fault) && !matches!(fault, Fault::PanicSubmodel | Fault::NoRecipientSubmodel);
+                let my_sufs: Vec<&Vec<usize>> = if !fatal || hier_variant {
+                    // The Terminated contract after each fault kind is enumerated
+                    // on the flat variants; the hierarchy variants vary attribution.
                     sufs.iter().filter(|s| s.len() == 1).collect()
                 } else if fault == Fault::Timeout {
                     // Deliberate overruns cost wall-clock time: fewer suffixes.
